@@ -4,17 +4,23 @@ go 1.24.0
 
 replace github.com/plgd-dev/go-coap/v3 => /repo
 
-require github.com/plgd-dev/go-coap/v3 v3.0.0-00010101000000-000000000000
+require (
+	github.com/plgd-dev/go-coap/v3 v3.0.0-00010101000000-000000000000
+	go.uber.org/atomic v1.11.0
+)
+
+require golang.org/x/mod v0.22.0 // indirect
 
 require (
+	github.com/anishathalye/porcupine v1.3.0
 	github.com/dsnet/golib/memfile v1.0.0 // indirect
 	github.com/pion/dtls/v3 v3.1.2 // indirect
 	github.com/pion/logging v0.2.4 // indirect
 	github.com/pion/transport/v4 v4.0.1 // indirect
-	go.uber.org/atomic v1.11.0 // indirect
 	golang.org/x/crypto v0.45.0 // indirect
 	golang.org/x/exp v0.0.0-20240904232852-e7e105dedf7e // indirect
 	golang.org/x/net v0.47.0 // indirect
 	golang.org/x/sync v0.11.0 // indirect
 	golang.org/x/sys v0.38.0 // indirect
+	golang.org/x/tools v0.29.0
 )
